@@ -37,10 +37,23 @@ def rules(model: Model, tier: str) -> List[RuleResult]:
 def _cases(f: FuncInfo) -> List[Tuple[str, str]]:
     """[(case kind, iteration source)] of the top-level if/elif chain over the first parameter"""
     p = f.params()[0]
-    chain = [s for s in f.node.body if isinstance(s, ast.If)]
-    if len(chain) != 1:
-        raise AnalysisError("%s: expected one if/elif chain" % f.fq)
-    node = chain[0]
+    chains = [s for s in f.node.body if isinstance(s, ast.If)]
+    if not chains:
+        raise AnalysisError("%s: no type-case chain" % f.fq)
+    out = []
+    for node in chains:
+        t0 = node.test
+        is_case = isinstance(t0, ast.Call) and isinstance(t0.func, ast.Name) and t0.func.id in ("isinstance", "hasattr") and ast.unparse(t0.args[0]) == p
+        if not is_case:
+            # a guard that is not a type case of the traversed value (e.g. a visited-set test with an early return): recorded as a skip condition
+            if any(isinstance(x, (ast.Return, ast.Continue)) for x in node.body):
+                out.append(("skip:" + ast.unparse(t0), ""))
+            continue
+        out += _chain_cases(node, p)
+    return out
+
+
+def _chain_cases(node, p):
     out = []
     while True:
         t = node.test
